@@ -291,6 +291,16 @@ def ob_declared(clsname, ctx):
             for k, (_t, dflt) in props.items():
                 if k != "offset":
                     ctx.check("from_dict[%s].default[%s]" % (form, k), all(cell_same(ctx, c, dflt) for c in col(tl.df, k)), note="%r" % (col(tl.df, k),))
+    # dict values that are pandas Series carrying the row labels of an earlier filter (gaps, not 0..n-1)
+    src = cls.from_dict(dict(offset=[t[0], t[1], t[0] + 1]))
+    part = src[[False, True, True]]
+    tl = cls.from_dict(dict(offset=part.offset))
+    ctx.check("from_dict[series-with-gapped-labels].len", len(tl) == 2, note="%d" % len(tl))
+    if len(tl) == 2 and set(tl.df.columns) == names:
+        ctx.check("from_dict[series-with-gapped-labels].offsets", ctx.all(*[cell_same(ctx, a, b) for a, b in zip(col(tl.df, "offset"), [t[1], t[0] + 1])]))
+        for k, (_t, dflt) in props.items():
+            if k != "offset":
+                ctx.check("from_dict[series-with-gapped-labels].default[%s]" % k, all(cell_same(ctx, c, dflt) for c in col(tl.df, k)), note="%r" % (col(tl.df, k),))
     ctx.check("from_dict[empty].len", len(cls.from_dict({})) == 0 and set(cls.from_dict([]).df.columns) == names)
     try:
         cls.from_dict(dict(offset=[1.0], not_a_field=[2]))
